@@ -597,8 +597,9 @@ impl<'a> PairCtx<'a> {
             };
         }
 
-        let need_int = m.c07 || m.c08 || m.c09 || m.c15 || m.c06 || m.c13 || m.c11 || m.c03;
-        let need_diff = m.c08 || m.c15 || m.c06 || m.c13 || m.c11 || m.c03 || m.c10;
+        // the state space is the same for every property: both operations always run
+        let need_int = true;
+        let need_diff = true;
         // ---- intersect
         let mut ri: Option<Res> = None;
         if need_int {
